@@ -49,17 +49,17 @@ def C1inv : U64 := 0x96de1b173f119089#64
 def C2inv : U64 := 0x319642b2d24d8ec3#64
 def PHIinv : U64 := 0xf1de83e19937733d#64
 
-theorem C1_mul_inv : C1 * C1inv = 1 := by decide +kernel
-theorem C2_mul_inv : C2 * C2inv = 1 := by decide +kernel
-theorem PHI_mul_inv : SplitMix64.PHI * PHIinv = 1 := by decide +kernel
+theorem C1_mul_inv : C1 * C1inv = 1#64 := by decide +kernel
+theorem C2_mul_inv : C2 * C2inv = 1#64 := by decide +kernel
+theorem PHI_mul_inv : SplitMix64.PHI * PHIinv = 1#64 := by decide +kernel
 
-theorem mul_cancel_right {c cinv : U64} (h : c * cinv = 1) (a : U64) : a * c * cinv = a := by
+theorem mul_cancel_right {c cinv : U64} (h : c * cinv = 1#64) (a : U64) : a * c * cinv = a := by
   rw [BitVec.mul_assoc, h, BitVec.mul_one]
 
-theorem mul_cancel_right' {c cinv : U64} (h : c * cinv = 1) (a : U64) : a * cinv * c = a := by
+theorem mul_cancel_right' {c cinv : U64} (h : c * cinv = 1#64) (a : U64) : a * cinv * c = a := by
   rw [BitVec.mul_assoc, BitVec.mul_comm cinv c, h, BitVec.mul_one]
 
-theorem mul_right_injective {c cinv : U64} (h : c * cinv = 1) {a b : U64} (hab : a * c = b * c) :
+theorem mul_right_injective {c cinv : U64} (h : c * cinv = 1#64) {a b : U64} (hab : a * c = b * c) :
     a = b := by
   have := congrArg (· * cinv) hab
   simpa only [mul_cancel_right h] using this
@@ -113,8 +113,7 @@ theorem iter_step (k : Nat) (x : U64) :
     simp
 
 theorem add_left_cancel' {x a b : U64} (h : x + a = x + b) : a = b := by
-  have := congrArg (· - x) h
-  simpa [BitVec.add_sub_cancel_left] using this
+  exact (BitVec.add_right_inj x).mp h
 
 theorem ofNat_mul_PHI_injective {i j : Nat} (hi : i < 2 ^ 64) (hj : j < 2 ^ 64)
     (h : BitVec.ofNat 64 i * SplitMix64.PHI = BitVec.ofNat 64 j * SplitMix64.PHI) : i = j := by
@@ -139,7 +138,7 @@ theorem state_minimal (x : U64) (k : Nat) (hk : 0 < k)
     rw [h]; simp
   have h' := mul_right_injective PHI_mul_inv h0
   have := congrArg BitVec.toNat h'
-  simp only [BitVec.toNat_ofNat, BitVec.toNat_zero] at this
+  simp only [BitVec.toNat_ofNat] at this
   omega
 
 /-! ## 4. the outputs of one full period are pairwise distinct -/
